@@ -1155,10 +1155,18 @@ func closeRunsOnce(p *Prog, ce *ChanEngine, f *FuncInfo, ch ast.Expr, depth int)
 			whys = append(whys, s.kind+" under Once/CAS in "+s.fn.QName())
 			continue
 		}
-		// the object the method is invoked on
+		// the object the method is invoked on — unless the channel belongs to a parameter, then the argument
 		var recvExpr ast.Expr
 		if sel, ok := unparen(s.call.Fun).(*ast.SelectorExpr); ok {
 			recvExpr = sel.X
+		}
+		if root.Obj != nil && isParam(root, bv) {
+			sig := root.Obj.Type().(*types.Signature)
+			for i := 0; i < sig.Params().Len() && i < len(s.call.Args); i++ {
+				if sig.Params().At(i) == bv {
+					recvExpr = s.call.Args[i]
+				}
+			}
 		}
 		if recvExpr == nil {
 			// the channel is a parameter of the closing function: follow the argument bound to it
